@@ -135,6 +135,7 @@ fn replay(path: &str) -> i32 {
                 ("C01", 7) => vharness::checks_tok::c01_reuse_case(&mut rng, &mut st),
                 ("C04", 2) => vharness::checks_tok::c04_reset_case(&mut rng, &mut st),
                 ("C05", 4) => vharness::checks_tok::c05_reset_case(&mut rng, &mut st),
+                ("C04", 5) => vharness::checks_tok::c04_text_twin_case(&mut rng, &mut st),
                 ("C06", 1) => vharness::checks_hist::c06_case(&mut rng, &mut st),
                 ("C06", 2) => vharness::checks_hist::c06_general_case(&mut rng, &mut st),
                 ("C06", 4) => vharness::checks_hist::c06_huge_modes_case(&mut rng, &mut st),
